@@ -186,8 +186,8 @@ pub fn c19(tier: Tier) -> i32 {
     let mut runs = Vec::new();
     match tier {
         Tier::Quick => {
-            runs.push((c06_cfg(Metric::Euclidean, 2, 5, true), caps(20)));
-            runs.push((c06_cfg(Metric::BqEuclidean, 3, 5, true), caps(20)));
+            runs.push((c06_cfg(Metric::Euclidean, 2, 6, true), caps(25)));
+            runs.push((c06_cfg(Metric::BqEuclidean, 3, 6, true), caps(25)));
         }
         Tier::Thorough => {
             for m in M7 {
@@ -246,8 +246,16 @@ pub fn c07(tier: Tier) -> i32 {
     match tier {
         Tier::Quick => {
             for (a, b) in [(0u16, 1u16), (255, 256), (256, 257), (65534, 65535), (65535, 0), (1, 255)] {
-                runs.push((c07_cfg(a, b, None, 5), caps(8)));
+                runs.push((c07_cfg(a, b, None, 6), caps(12)));
             }
+            for a in lattice {
+                for b in lattice {
+                    if a != b {
+                        runs.push((c07_cfg(a, b, None, 4), caps(6)));
+                    }
+                }
+            }
+            runs.push((c07_cfg(255, 256, Some(257), 5), caps(10)));
         }
         Tier::Thorough => {
             for a in lattice {
